@@ -209,3 +209,59 @@ def c18_r4(ctx):
             bad = t
     ctx.ob(mc, bool(res2["normal"]) and bad is None, "remaining buffer -> stop sentinels -> join -> collect results -> publish -> finish",
            detail=fmt(bad) if bad else "")
+
+
+def _reads_index(prog, cls, name, seen=None, func=None):
+    """does method `name`, as resolved for `cls` (or the given function, run with self of class `cls`), reach -- through
+    self-calls and explicit `Base.m(self, ...)` calls -- a call of self.searcher()/self.reader()?  Returns the chain or None."""
+    seen = seen if seen is not None else set()
+    f = func if func is not None else prog.lookup(cls, name)
+    if f is None or f.qualname in seen:
+        return None
+    seen.add(f.qualname)
+    for c in norm.calls_in(f.node):
+        t = norm.canon(c.func)
+        if t in ("self.searcher", "self.reader"):
+            return [f.short]
+        if isinstance(c.func, ast.Attribute) and isinstance(c.func.value, ast.Name):
+            recv = c.func.value.id
+            if recv == "self":
+                r = _reads_index(prog, cls, c.func.attr, seen)
+                if r:
+                    return [f.short] + r
+            elif c.args and isinstance(c.args[0], ast.Name) and c.args[0].id == "self":
+                base = [b for b in prog.mro(cls) if not isinstance(b, str) and b.name == recv]
+                g = prog.lookup(base[0], c.func.attr) if base else None
+                if g is not None:
+                    r = _reads_index(prog, cls, c.func.attr, seen, func=g)
+                    if r:
+                        return [f.short] + r
+    return None
+
+
+@rule("C18", "R5", "K3", "a deferring writer front-end does not look documents up at call time",
+      min_instances=1, also=("C07",),
+      clause="AsyncWriter applies its calls later, possibly after other writers have committed and merged.  So every "
+             "IndexWriter operation whose base implementation consults the index when it is called (opens self.searcher()/"
+             "self.reader(): delete_by_term, delete_by_query, update_document), as resolved for AsyncWriter (its overrides, "
+             "self-calls and explicit Base.m(self, ...) calls followed), must not reach self.searcher()/self.reader(): it has "
+             "to be recorded by name for replay, else document numbers found now are applied to a renumbered index later.")
+def c18_r5(ctx):
+    prog = ctx.prog
+    base = prog.cls("writing.IndexWriter")
+    aw = prog.cls("writing.AsyncWriter")
+    n = 0
+    for name, bf in sorted(base.methods.items()):
+        if name.startswith("_") or name in ("reader", "searcher", "commit", "cancel", "group", "start_group", "end_group"):
+            continue
+        if not _reads_index(prog, base, name):
+            continue
+        n += 1
+        ctx.saw(bf)
+        chain = _reads_index(prog, aw, name)
+        ctx.ob(aw, not chain, "AsyncWriter.%s() does not consult the index when it is called" % name,
+               detail="as resolved for AsyncWriter it reaches self.searcher()/self.reader() via %s: the document numbers found now are recorded "
+                      "and applied after the lock is obtained -- by then a merge may have renumbered the documents" % " -> ".join(chain or []),
+               loc=aw.loc)
+    if n < 3:
+        raise AnalysisError("only %d index-reading IndexWriter operations found" % n)
